@@ -38,6 +38,7 @@ pub fn lifetime(kind: Kind) -> impl Strategy<Value = History> {
                 Pos::IoU(_) => Pos::IoU(0.1),
                 p => p,
             };
+            cfg.constraints = None;
             cfg.vis.own_use = 0.0;
             cfg.vis.own_collect = if nobj == 1 { 0.0 } else { cfg.vis.own_collect };
             let mut objs = vec![Obj { x0: x, y0: y, vx, vy, ax: 0.0, ay: 0.0, w, h, growth: 0.0, angle: None, omega: 0.0, proto: 0 }];
